@@ -221,7 +221,7 @@ func (g *bindGen) insertExpr(p *stmtPlan) string {
 		var cols, vals, usedIn []string
 		inputs := 0
 		for i := 0; i < n; i++ {
-			cols = append(cols, r.pick([]string{"c1", "c2", "name", "id", "t.c3", "\"q c\"", "c٣", "t٢.x"}))
+			cols = append(cols, r.pick([]string{"c1", "c2", "name", "id", "t.c3", "\"q c\"", "c٣", "t٢.x", "/*pk*/çid", "/*id*/識別子", "`q'c`", "`a`"}))
 			switch r.intn(4) {
 			case 0:
 				if len(usedIn) > 0 && r.chance(1, 3) {
@@ -323,7 +323,7 @@ func (g *bindGen) outputExpr(p *stmtPlan) string {
 		n := 1 + r.intn(3)
 		var cols, tys []string
 		for i := 0; i < n; i++ {
-			cols = append(cols, tbl+r.pick([]string{"a", "b", "c", "name", "count(*)", "v٢", "日٣"}))
+			cols = append(cols, tbl+r.pick([]string{"a", "b", "c", "name", "count(*)", "v٢", "日٣", "/*k*/ñ", "`b'`"}))
 			if r.chance(1, 4) {
 				t := r.pick(goodMaps)
 				p.use(t, false)
@@ -543,6 +543,9 @@ func (g *bindGen) lay(s string) string {
 func (g *bindGen) manyTypes() bindCase {
 	r := g.r
 	k := []int{7, 8, 9, 15, 16, 17}[r.intn(6)]
+	if r.chance(1, 12) {
+		return g.veryManyTypes()
+	}
 	names := append([]string{}, goodStructs...)
 	for i := len(names) - 1; i > 0; i-- {
 		j := r.intn(i + 1)
@@ -560,6 +563,33 @@ func (g *bindGen) manyTypes() bindCase {
 		if len(tags) == 0 {
 			continue
 		}
+		outs = append(outs, "x AS &"+n+"."+tags[0])
+		c.samples = append(c.samples, zooByName(n))
+	}
+	c.query = "SELECT " + strings.Join(outs, ", ") + " FROM t"
+	return c
+}
+
+// veryManyTypes: a statement naming 63..66 types (the 48 generated wide types and zoo types), one member each.
+func (g *bindGen) veryManyTypes() bindCase {
+	r := g.r
+	k := []int{63, 64, 65, 66}[r.intn(4)]
+	c := bindCase{}
+	var outs []string
+	for i := range hugeSamples {
+		outs = append(outs, "x AS &"+hugeName(i)+".c000")
+		c.samples = append(c.samples, hugeSamples[i])
+	}
+	seen := map[string]bool{}
+	for _, n := range goodStructs {
+		if len(outs) >= k {
+			break
+		}
+		tags := zooTags(reflect.TypeOf(zooByName(n)))
+		if seen[n] || len(tags) == 0 {
+			continue
+		}
+		seen[n] = true
 		outs = append(outs, "x AS &"+n+"."+tags[0])
 		c.samples = append(c.samples, zooByName(n))
 	}
@@ -747,6 +777,26 @@ func (g *bindGen) next1() bindCase {
 				c.args[i] = AddressSlice{x, x}
 			case []Address:
 				c.args[i] = AddressSlice(x)
+			}
+		}
+	}
+	// a fixed-size array of the struct (or of pointers to it) in place of the argument: not a form an insert takes
+	if hasInsert && r.chance(1, 15) {
+		for i, a := range c.args {
+			if a == nil {
+				continue
+			}
+			v := reflect.ValueOf(a)
+			if v.Kind() == reflect.Struct || (v.Kind() == reflect.Pointer && !v.IsNil() && v.Elem().Kind() == reflect.Struct) {
+				arr := reflect.New(reflect.ArrayOf(2, v.Type())).Elem()
+				arr.Index(0).Set(v)
+				arr.Index(1).Set(v)
+				if r.chance(1, 2) {
+					c.args[i] = arr.Interface()
+				} else {
+					c.args[i] = arr.Addr().Interface()
+				}
+				break
 			}
 		}
 	}
